@@ -50,7 +50,9 @@ class C05(Prop):
         "Order-insensitivity is a theorem for GatherStep, LoopOutputStep, the flat dot product and the cartesian product "
         "(C05_contract_*: corollaries of the C01/C06/C02 models, in their own token types); for the network scatter -> "
         "transform -> gather of log machines every fully terminated execution delivers exactly the transformed list "
-        "(C05_scatter_gather_outputs, no hypothesis on the steps); C05_mixed_bags_partial links "
+        "(C05_scatter_gather_outputs, no hypothesis on the steps); a flat dot-product combinator in a network never "
+        "raises and emits the same bag of combinations in every fully terminated execution, which plugs into C29's "
+        "scatter/dot/job/gather theorem (C05_scatter_comb_gather_outputs_partial); C05_mixed_bags_partial links "
         "the operational network of log machines to such per-machine statements; it stays an assumption for "
         "ExecuteStep with concurrent jobs, LoopCombinatorStep and the embedding of those models into the network's "
         "histories; for tag-grouping steps it needs the shape "
